@@ -24,6 +24,7 @@ def templates():
     add("v2c-empty", "v2c", [])
     add("v2c-two", "v2c", [(n1, ("octets", b"abc")), (n2, ("counter64", 2 ** 63))])
     add("v2c-exc", "v2c", [(n1, ("noSuchObject",)), (n2, ("endOfMibView",))])
+    add("v2c-bulk-end", "v2c", [(n1, ("int", 1)), (n2, ("octets", b"ab")), (n2 + [1], ("endOfMibView",))])      # values followed by the end marker
     add("v2c-types", "v2c", [(n1, ("ip", bytes([10, 0, 0, 1]))), (n2, ("oid", [1, 3, 6, 1, 4, 1, 99999])), (n1 + [1], ("real", b"\x80\x00\x03")), (n1 + [2], ("timeticks", 400000000))])
     add("v1-int", "v1", [(n1, ("gauge32", 4000000000))])
     add("v1-nosuchname", "v1", [(n1, ("null",))], es=2, ei=1)
